@@ -771,3 +771,363 @@ Theorem first_match_example :
   /\ snd (fst (read_refs w8_lower w8_dup_state 0 false [3] [])) = [5].
 Proof. exact w8_first_match_example_l. Qed.
 Print Assumptions first_match_example.
+
+(* ================= wave 9: the first-match theorems lifted to the operations (step8) =================
+   Proofs/C11W9First.v, C11W9Step.v, C11W9Examples.v.
+   imports8 x o  says which items the call o imports BY LABEL, into which namespace n, under which caller's
+   memo m0 (the memo as it was before the call; [] when the keyword is not given):
+     RMove n m0 trs     the tree objects trs are re-mapped in place:
+                          append / insert / [i]= of a tree under another namespace (trs = [] when the tree is
+                          already under the list's namespace), extend / += / + / slice assignment from an iterable of
+                          trees (the trees not yet under the namespace), Tree.migrate / reconstruct,
+                          TreeList.migrate / reconstruct (the trees the list holds exactly once: a tree object held
+                          twice is re-mapped twice), all with unify_taxa_by_label=True, with or without memo;
+     RClone n srcs base the j-th tree of srcs is cloned (Tree(t0, taxon_namespace=n)) into the NEW tree object
+                          base + j:  extend / += / + / slice assignment from a TreeList;
+     RMat n m0 m        the rows of matrix m are re-mapped in place: CharacterMatrix.migrate / reconstruct.
+   (taxon_import_strategy="add", unify_taxa_by_label=False, the readers and DataSet.unify_taxon_namespaces are
+   not imports by label of one item into one namespace in this sense: imports8 = None.)
+   taxa_wf x: the identifiers in the state name existing objects and the row keys of a matrix are distinct
+   (executable: taxa_wfb, taxa_wfb_sound).  It is an invariant of ALL histories (taxa_wf_step8, taxa_wf_reachable8
+   below), so for reachable states the theorem holds without it: import_resolves_first_match_reachable8. *)
+From DV Require Import Proofs.C11W9First Proofs.C11W9Step Proofs.C11W9Examples.
+
+Theorem taxa_wf_meaning : forall x : xstate,
+  taxa_wf x <->
+  ((forall n y, In y (members (x_st x) n) -> y < length (s_lab (x_st x))) /\
+   (forall j y, In y (t_refs (gettree (x_st x) j)) -> y < length (s_lab (x_st x))) /\
+   (forall l tr, In tr (l_trees (getlist (x_st x) l)) -> tr < length (s_trees (x_st x))) /\
+   (forall m, NoDup (m_rows (getmat (x_st x) m))
+              /\ forall y, In y (m_rows (getmat (x_st x) m)) -> y < length (s_lab (x_st x))) /\
+   (forall k a t, alookup a (getmemo x k) = Some t -> t < length (s_lab (x_st x)))).
+Proof. intro x. split; intro H; exact H. Qed.
+Print Assumptions taxa_wf_meaning.
+
+Theorem taxa_wfb_sound : forall x : xstate, taxa_wfb x = true -> taxa_wf x.
+Proof. exact Proofs.C11W9Step.taxa_wfb_sound. Qed.
+Print Assumptions taxa_wfb_sound.
+
+Theorem imports8_table : forall (x : xstate) (l l2 tr n m k : oid) (i : Z) (a b : option Z) (ts : list oid),
+  let st := x_st x in
+  let ln := l_ns (getlist st l) in
+  let fresh := fun trs => filter (fun t => negb (Nat.eqb (t_ns (gettree st t)) ln)) trs in
+  let once := fun trs => filter (fun t => Nat.eqb (count_occ Nat.eq_dec trs t) 1) trs in
+  (forall o, imports8 x (BadKw o) = imports8 x (Op7 o))
+  /\ imports8 x (Op7 (Base (Append l tr (SMigrate true)))) = Some (RMove ln [] (fresh [tr]))
+  /\ imports8 x (Op7 (Base (Insert l i tr (SMigrate true)))) = Some (RMove ln [] (fresh [tr]))
+  /\ imports8 x (Op7 (Base (SetItem l i tr))) = Some (RMove ln [] (fresh [tr]))
+  /\ imports8 x (Op7 (AppendM l tr (SMigrate true) k)) = Some (RMove ln (getmemo x k) (fresh [tr]))
+  /\ imports8 x (Op7 (InsertM l i tr (SMigrate true) k)) = Some (RMove ln (getmemo x k) (fresh [tr]))
+  /\ imports8 x (Op7 (Base (Extend l (SrcTrees ts)))) = Some (RMove ln [] (fresh ts))
+  /\ imports8 x (Op7 (Base (IAdd l (SrcTrees ts)))) = Some (RMove ln [] (fresh ts))
+  /\ imports8 x (Op7 (Base (AddOp l (SrcTrees ts)))) = Some (RMove ln [] (fresh ts))
+  /\ imports8 x (Op7 (Base (SetSlice l a b (SrcTrees ts)))) = Some (RMove ln [] (fresh ts))
+  /\ imports8 x (Op7 (Base (Extend l (SrcList l2)))) = Some (RClone ln (l_trees (getlist st l2)) (length (s_trees st)))
+  /\ imports8 x (Op7 (Base (IAdd l (SrcList l2)))) = Some (RClone ln (l_trees (getlist st l2)) (length (s_trees st)))
+  /\ imports8 x (Op7 (Base (SetSlice l a b (SrcList l2)))) = Some (RClone ln (l_trees (getlist st l2)) (length (s_trees st)))
+  /\ imports8 x (Op7 (Base (AddOp l (SrcList l2))))
+     = Some (RClone ln (l_trees (getlist st l2)) (length (s_trees st) + length (l_trees (getlist st l))))
+  /\ imports8 x (Op7 (Base (MigrateTree tr n true))) = Some (RMove n [] [tr])
+  /\ imports8 x (Op7 (Base (ReconstructTree tr true))) = Some (RMove (t_ns (gettree st tr)) [] [tr])
+  /\ imports8 x (Op7 (MigrateTreeM tr n true k)) = Some (RMove n (getmemo x k) [tr])
+  /\ imports8 x (Op7 (ReconstructTreeM tr true k)) = Some (RMove (t_ns (gettree st tr)) (getmemo x k) [tr])
+  /\ imports8 x (Op7 (Base (MigrateList l n true))) = Some (RMove n [] (once (l_trees (getlist st l))))
+  /\ imports8 x (Op7 (Base (ReconstructList l true))) = Some (RMove ln [] (once (l_trees (getlist st l))))
+  /\ imports8 x (Op7 (MigrateListM l n true k)) = Some (RMove n (getmemo x k) (once (l_trees (getlist st l))))
+  /\ imports8 x (Op7 (ReconstructListM l true k)) = Some (RMove ln (getmemo x k) (once (l_trees (getlist st l))))
+  /\ imports8 x (Op7 (Base (MigrateMat m n true))) = Some (RMat n [] m)
+  /\ imports8 x (Op7 (Base (ReconstructMat m true))) = Some (RMat (m_ns (getmat st m)) [] m)
+  /\ imports8 x (Op7 (MigrateMatM m n true k)) = Some (RMat n (getmemo x k) m)
+  /\ imports8 x (Op7 (ReconstructMatM m true k)) = Some (RMat (m_ns (getmat st m)) (getmemo x k) m).
+Proof. intros. repeat split. Qed.
+Print Assumptions imports8_table.
+
+(* after a SUCCESSFUL step (outcome OUnit / OId) every label of the imported item that the caller's memo does not
+   name is resolved to the FIRST member of the destination namespace - as it is after the call, where a member made
+   by the call for a label without match sits at the end - that matches it under the namespace's case rule *)
+Theorem import_resolves_first_match_step8 : forall (lower : lbl -> lbl) (x : xstate) (o : op8) (x' : xstate) (y : out)
+    (r : route),
+  step8 lower x o = (x', y) -> succeeded y = true -> taxa_wf x -> imports8 x o = Some r ->
+  let st := x_st x in
+  let st' := x_st x' in
+  match r with
+  | RMove n m0 trs =>
+    forall tr, In tr trs ->
+      let refs := t_refs (gettree st tr) in
+      let refs' := t_refs (gettree st' tr) in
+      t_ns (gettree st' tr) = n /\ length refs' = length refs /\
+      forall i, i < length refs -> alookup (nth i refs 0) m0 = None ->
+        first_match lower st' n (ns_cs st' n) (label st (nth i refs 0)) = Some (nth i refs' 0)
+  | RClone n srcs base =>
+    forall j, j < length srcs -> Nat.eqb (t_ns (gettree st (nth j srcs 0))) n = false ->
+      let refs := t_refs (gettree st (nth j srcs 0)) in
+      let refs' := t_refs (gettree st' (base + j)) in
+      t_ns (gettree st' (base + j)) = n /\ length refs' = length refs /\
+      (* Tree._clone_from maps the MEMBERS of the source namespace; any other node taxon is deep-copied *)
+      forall i, i < length refs -> In (nth i refs 0) (members st (t_ns (gettree st (nth j srcs 0)))) ->
+        first_match lower st' n (ns_cs st' n) (label st (nth i refs 0)) = Some (nth i refs' 0)
+  | RMat n m0 m =>
+    let rows := m_rows (getmat st m) in
+    let rows' := m_rows (getmat st' m) in
+    m_ns (getmat st' m) = n /\ length rows' = length rows /\
+    forall i, i < length rows -> alookup (nth i rows 0) m0 = None ->
+      first_match lower st' n (ns_cs st' n) (label st (nth i rows 0)) = Some (nth i rows' 0)
+  end.
+Proof. exact import_resolves_first_match_step8_l. Qed.
+Print Assumptions import_resolves_first_match_step8.
+
+(* hence: labels of one imported tree that are equal under the destination's case rule sit on ONE taxon object *)
+Theorem import_equal_labels_one_taxon_step8 : forall (lower : lbl -> lbl) (x : xstate) (o : op8) (x' : xstate) (y : out)
+    (n : oid) (m0 : memo) (trs : list oid),
+  step8 lower x o = (x', y) -> succeeded y = true -> taxa_wf x -> imports8 x o = Some (RMove n m0 trs) ->
+  forall tr, In tr trs ->
+  let refs := t_refs (gettree (x_st x) tr) in
+  let refs' := t_refs (gettree (x_st x') tr) in
+  forall i j, i < length refs -> j < length refs ->
+    alookup (nth i refs 0) m0 = None -> alookup (nth j refs 0) m0 = None ->
+    key lower (ns_cs (x_st x') n) (label (x_st x) (nth i refs 0)) = key lower (ns_cs (x_st x') n) (label (x_st x) (nth j refs 0)) ->
+    nth i refs' 0 = nth j refs' 0.
+Proof. exact import_equal_labels_one_taxon_step8_l. Qed.
+Print Assumptions import_equal_labels_one_taxon_step8.
+
+(* the hypotheses are satisfiable on the states of the fixed histories (duplicate-label namespace 0 = A B a C A a,
+   case-insensitive): migrate route, clone route, a caller's memo naming one of two taxa, matrix route *)
+Theorem import_first_match_example :
+  taxa_wfb w9_xa = true /\ nth_error w8_history0 25 = Some (Op7 (Base (Append 0 5 (SMigrate true))))
+  /\ imports8 w9_xa (Op7 (Base (Append 0 5 (SMigrate true)))) = Some (RMove 0 [] [5])
+  /\ snd (step8 w8_lower w9_xa (Op7 (Base (Append 0 5 (SMigrate true))))) = OUnit
+  /\ members (x_st w9_xa) 0 = [0; 1; 2; 3; 4; 5]
+  /\ map (label (x_st w9_xa)) [0; 1; 2; 3; 4; 5; 6; 7; 8] = [0; 1; 3; 2; 0; 3; 3; 2; 1]
+  /\ t_refs (gettree (x_st w9_xa) 5) = [7; 6]
+  /\ t_refs (gettree (x_st (fst (step8 w8_lower w9_xa (Op7 (Base (Append 0 5 (SMigrate true))))))) 5) = [3; 0]
+  /\ taxa_wfb w9_xb = true /\ nth_error w8_history0 26 = Some (Op7 (Base (Extend 0 (SrcList 3))))
+  /\ imports8 w9_xb (Op7 (Base (Extend 0 (SrcList 3)))) = Some (RClone 0 [4] 6)
+  /\ snd (step8 w8_lower w9_xb (Op7 (Base (Extend 0 (SrcList 3))))) = OUnit
+  /\ t_refs (gettree (x_st w9_xb) 4) = [6; 7; 8] /\ t_ns (gettree (x_st w9_xb) 4) = 3
+  /\ t_refs (gettree (x_st (fst (step8 w8_lower w9_xb (Op7 (Base (Extend 0 (SrcList 3))))))) 6) = [0; 3; 1]
+  /\ taxa_wfb w9_xc = true
+  /\ imports8 w9_xc (Op7 (MigrateTreeM 5 0 true 0)) = Some (RMove 0 [(7, 4)] [5])
+  /\ snd (step8 w8_lower w9_xc (Op7 (MigrateTreeM 5 0 true 0))) = OUnit
+  /\ t_refs (gettree (x_st (fst (step8 w8_lower w9_xc (Op7 (MigrateTreeM 5 0 true 0))))) 5) = [4; 0]
+  /\ taxa_wfb w9_xm = true /\ nth_error w8_history3 22 = Some (Op7 (Base (MigrateMat 0 1 true)))
+  /\ imports8 w9_xm (Op7 (Base (MigrateMat 0 1 true))) = Some (RMat 1 [] 0)
+  /\ snd (step8 w8_lower w9_xm (Op7 (Base (MigrateMat 0 1 true)))) = OUnit
+  /\ m_rows (getmat (x_st w9_xm) 0) = [0]
+  /\ m_rows (getmat (x_st (fst (step8 w8_lower w9_xm (Op7 (Base (MigrateMat 0 1 true)))))) 0) = [2].
+Proof. exact w9_example_l. Qed.
+Print Assumptions import_first_match_example.
+
+(* the read route does NOT resolve to the first match (unchanged library: listed finding
+   read-resolves-duplicate-label-to-last-member): TreeList.read of the label a into namespace 0 = A B a C A a
+   makes tree 4 with taxon 5, the last of the three members matching a; the first is taxon 0 *)
+Theorem read_resolves_first_match_refuted :
+  exists (x : xstate) (o : op8) (x' : xstate),
+    taxa_wf x /\ step8 w8_lower x o = (x', OUnit) /\ o = Op7 (Base (ReadList 0 Newick false None [[3]]))
+    /\ l_ns (getlist (x_st x) 0) = 0 /\ length (s_trees (x_st x)) = 4
+    /\ t_ns (gettree (x_st x') 4) = 0 /\ t_refs (gettree (x_st x') 4) = [5]
+    /\ first_match w8_lower (x_st x') 0 (ns_cs (x_st x') 0) 3 = Some 0.
+Proof. exact w9_read_refuted_l. Qed.
+Print Assumptions read_resolves_first_match_refuted.
+
+(* ---- taxa_wf is an invariant of the extended history language: EVERY operation (disciplined or not, successful or
+   not) keeps it, so it holds in every state of every history (Proofs/C11W9Wf.v) and the step theorem needs no
+   hypothesis about reachable states ---- *)
+From DV Require Import Proofs.C11W9Wf.
+
+Theorem taxa_wf_step8 : forall (lower : lbl -> lbl) (x : xstate) (o : op8),
+  taxa_wf x -> taxa_wf (fst (step8 lower x o)).
+Proof. exact taxa_wf_step8_l. Qed.
+Print Assumptions taxa_wf_step8.
+
+Theorem taxa_wf_reachable8 : forall (lower : lbl -> lbl) (ops : list op8), taxa_wf (run_state8 lower x_init ops).
+Proof. exact taxa_wf_reachable8_l. Qed.
+Print Assumptions taxa_wf_reachable8.
+
+Theorem import_resolves_first_match_reachable8 : forall (lower : lbl -> lbl) (ops : list op8) (o : op8) (x' : xstate)
+    (y : out) (r : route),
+  let x := run_state8 lower x_init ops in
+  step8 lower x o = (x', y) -> succeeded y = true -> imports8 x o = Some r ->
+  let st := x_st x in
+  let st' := x_st x' in
+  match r with
+  | RMove n m0 trs =>
+    forall tr, In tr trs ->
+      let refs := t_refs (gettree st tr) in
+      let refs' := t_refs (gettree st' tr) in
+      t_ns (gettree st' tr) = n /\ length refs' = length refs /\
+      forall i, i < length refs -> alookup (nth i refs 0) m0 = None ->
+        first_match lower st' n (ns_cs st' n) (label st (nth i refs 0)) = Some (nth i refs' 0)
+  | RClone n srcs base =>
+    forall j, j < length srcs -> Nat.eqb (t_ns (gettree st (nth j srcs 0))) n = false ->
+      let refs := t_refs (gettree st (nth j srcs 0)) in
+      let refs' := t_refs (gettree st' (base + j)) in
+      t_ns (gettree st' (base + j)) = n /\ length refs' = length refs /\
+      forall i, i < length refs -> In (nth i refs 0) (members st (t_ns (gettree st (nth j srcs 0)))) ->
+        first_match lower st' n (ns_cs st' n) (label st (nth i refs 0)) = Some (nth i refs' 0)
+  | RMat n m0 m =>
+    let rows := m_rows (getmat st m) in
+    let rows' := m_rows (getmat st' m) in
+    m_ns (getmat st' m) = n /\ length rows' = length rows /\
+    forall i, i < length rows -> alookup (nth i rows 0) m0 = None ->
+      first_match lower st' n (ns_cs st' n) (label st (nth i rows 0)) = Some (nth i rows' 0)
+  end.
+Proof. exact import_resolves_first_match_reachable8_l. Qed.
+Print Assumptions import_resolves_first_match_reachable8.
+
+(* ---- the history corollary (Proofs/C11W9Hist.v): a tree that is RESOLVED - every node taxon is the first member of
+   the tree's namespace matching its label, which is what every memo-free import by label establishes
+   (canon_after_import8) - stays resolved through every later operation that does not re-write that tree object
+   (touched8: the tree-level operations on it, the list-level operations on a list holding it, + / extend / slice
+   assignment from an iterable containing it, DataSet.unify_taxon_namespaces) and is not a purge
+   (purge_taxon_namespace removes members).  Reads, clones, operations on other trees / lists / matrices /
+   data sets, refused calls, growth of the namespace by any route: all allowed.  Hence labels equal under the case
+   rule, of resolved trees under one namespace (e.g. the trees of one list that arrived by the import routes), sit
+   on ONE taxon in every later state.  The trees MADE by the read route in a namespace with duplicate labels are not
+   resolved (read_resolves_first_match_refuted), nor are those imported with taxon_import_strategy="add"
+   (history_resolved_example: trees 1, 2). ---- *)
+From DV Require Import Proofs.C11W9Hist.
+
+Theorem canon_meaning : forall (lower : lbl -> lbl) (st : state) (tr : oid),
+  canon lower st tr <->
+  (tr < length (s_trees st) /\ t_ns (gettree st tr) < s_nns st /\
+   forall y, In y (t_refs (gettree st tr)) ->
+     first_match lower st (t_ns (gettree st tr)) (ns_cs st (t_ns (gettree st tr))) (label st y) = Some y).
+Proof. intros. split; intro H; exact H. Qed.
+Print Assumptions canon_meaning.
+
+Theorem touched8_table : forall (x : xstate) (j l l2 t n d m k : oid) (i : Z) (a b : option Z) (ts : list oid) (s : strat)
+    (u at_ : bool) (nsarg : option oid) (sc : schema) (trees : list (list lbl)),
+  let st := x_st x in
+  (forall o, touched8 x (BadKw o) j = touched8 x (Op7 o) j) /\ (forall o, is_purge8 (BadKw o) = is_purge8 (Op7 o))
+  /\ touched8 x (Op7 (Base (Append l t s))) j = (j = t) /\ touched8 x (Op7 (Base (Insert l i t s))) j = (j = t)
+  /\ touched8 x (Op7 (Base (SetItem l i t))) j = (j = t) /\ touched8 x (Op7 (AppendM l t s k)) j = (j = t)
+  /\ touched8 x (Op7 (InsertM l i t s k)) j = (j = t)
+  /\ touched8 x (Op7 (Base (MigrateTree t n u))) j = (j = t) /\ touched8 x (Op7 (Base (ReconstructTree t u))) j = (j = t)
+  /\ touched8 x (Op7 (Base (UpdateTree t))) j = (j = t)
+  /\ touched8 x (Op7 (MigrateTreeM t n u k)) j = (j = t) /\ touched8 x (Op7 (ReconstructTreeM t u k)) j = (j = t)
+  /\ touched8 x (Op7 (Base (Extend l (SrcTrees ts)))) j = In j ts /\ touched8 x (Op7 (Base (IAdd l (SrcTrees ts)))) j = In j ts
+  /\ touched8 x (Op7 (Base (AddOp l (SrcTrees ts)))) j = In j ts
+  /\ touched8 x (Op7 (Base (SetSlice l a b (SrcTrees ts)))) j = In j ts
+  /\ touched8 x (Op7 (Base (Extend l (SrcList l2)))) j = False /\ touched8 x (Op7 (Base (IAdd l (SrcList l2)))) j = False
+  /\ touched8 x (Op7 (Base (AddOp l (SrcList l2)))) j = False
+  /\ touched8 x (Op7 (Base (SetSlice l a b (SrcList l2)))) j = False
+  /\ touched8 x (Op7 (Base (MigrateList l n u))) j = In j (l_trees (getlist st l))
+  /\ touched8 x (Op7 (Base (ReconstructList l u))) j = In j (l_trees (getlist st l))
+  /\ touched8 x (Op7 (Base (UpdateList l))) j = In j (l_trees (getlist st l))
+  /\ touched8 x (Op7 (Base (GetSlice l a b))) j = In j (l_trees (getlist st l))
+  /\ touched8 x (Op7 (MigrateListM l n u k)) j = In j (l_trees (getlist st l))
+  /\ touched8 x (Op7 (ReconstructListM l u k)) j = In j (l_trees (getlist st l))
+  /\ touched8 x (Op7 (Base (Unify d nsarg at_))) j = True
+  /\ touched8 x (Op7 (Base (ReadList l sc u nsarg trees))) j = False
+  /\ touched8 x (Op7 (Base (DsReadTrees d sc u nsarg trees))) j = False
+  /\ touched8 x (Op7 (Base (MigrateMat m n u))) j = False /\ touched8 x (Op7 (Base (NewTaxon n k))) j = False
+  /\ is_purge8 (Op7 (Base (PurgeList l))) = true /\ is_purge8 (Op7 (Base (PurgeTree t))) = true
+  /\ is_purge8 (Op7 (Base (PurgeMat m))) = true /\ is_purge8 (Op7 (Base (Append l t s))) = false
+  /\ is_purge8 (Op7 (Base (ReadList l sc u nsarg trees))) = false.
+Proof. intros. repeat split. Qed.
+Print Assumptions touched8_table.
+
+Theorem canon_after_import8 : forall (lower : lbl -> lbl) (x : xstate) (o : op8) (x' : xstate) (y : out) (n : oid)
+    (trs : list oid) (tr : oid),
+  step8 lower x o = (x', y) -> succeeded y = true -> taxa_wf x -> imports8 x o = Some (RMove n [] trs) -> In tr trs ->
+  tr < length (s_trees (x_st x')) -> n < s_nns (x_st x') -> canon lower (x_st x') tr.
+Proof. exact canon_after_import8_l. Qed.
+Print Assumptions canon_after_import8.
+
+Theorem canon_kept_step8 : forall (lower : lbl -> lbl) (x : xstate) (o : op8) (tr : oid),
+  taxa_wf x -> is_purge8 o = false -> ~ touched8 x o tr -> canon lower (x_st x) tr ->
+  canon lower (x_st (fst (step8 lower x o))) tr /\ gettree (x_st (fst (step8 lower x o))) tr = gettree (x_st x) tr.
+Proof. exact canon_kept_step8_l. Qed.
+Print Assumptions canon_kept_step8.
+
+Theorem quiet_hist_meaning : forall (lower : lbl -> lbl) (x : xstate) (o : op8) (r : list op8) (tr : oid),
+  (quiet_hist lower x [] tr <-> True)
+  /\ (quiet_hist lower x (o :: r) tr <->
+      (is_purge8 o = false /\ ~ touched8 x o tr /\ quiet_hist lower (fst (step8 lower x o)) r tr)).
+Proof. intros. split; split; intro H; exact H. Qed.
+Print Assumptions quiet_hist_meaning.
+
+Theorem canon_kept_history8 : forall (lower : lbl -> lbl) (ops : list op8) (x : xstate) (tr : oid),
+  taxa_wf x -> canon lower (x_st x) tr -> quiet_hist lower x ops tr ->
+  canon lower (x_st (run_state8 lower x ops)) tr
+  /\ gettree (x_st (run_state8 lower x ops)) tr = gettree (x_st x) tr.
+Proof. exact canon_kept_history8_l. Qed.
+Print Assumptions canon_kept_history8.
+
+Theorem history_equal_labels_one_taxon8 : forall (lower : lbl -> lbl) (ops : list op8) (x : xstate) (t1 t2 : oid),
+  taxa_wf x -> canon lower (x_st x) t1 -> canon lower (x_st x) t2 ->
+  t_ns (gettree (x_st x) t1) = t_ns (gettree (x_st x) t2) ->
+  quiet_hist lower x ops t1 -> quiet_hist lower x ops t2 ->
+  let st' := x_st (run_state8 lower x ops) in
+  forall y1 y2, In y1 (t_refs (gettree st' t1)) -> In y2 (t_refs (gettree st' t2)) ->
+    key lower (ns_cs st' (t_ns (gettree st' t1))) (label st' y1) = key lower (ns_cs st' (t_ns (gettree st' t1))) (label st' y2) ->
+    y1 = y2.
+Proof. exact history_equal_labels_one_taxon8_l. Qed.
+Print Assumptions history_equal_labels_one_taxon8.
+
+Theorem history_resolved_example :
+  taxa_wfb w9_xb = true
+  /\ canon w8_lower (x_st w9_xb) 5 /\ canon w8_lower (x_st w9_xb) 0
+  /\ t_ns (gettree (x_st w9_xb) 5) = t_ns (gettree (x_st w9_xb) 0)
+  /\ skipn 26 w8_history0 = [Op7 (Base (Extend 0 (SrcList 3))); Op7 (Base (IAdd 0 (SrcList 3)));
+                             Op7 (Base (SetSlice 0 (Some 1%Z) (Some 2%Z) (SrcList 3))); Op7 (Base (AddOp 0 (SrcList 3)))]
+  /\ quiet_hist w8_lower w9_xb (skipn 26 w8_history0) 5 /\ quiet_hist w8_lower w9_xb (skipn 26 w8_history0) 0
+  /\ canonb w8_lower (x_st w9_xb) 1 = false /\ canonb w8_lower (x_st w9_xb) 2 = false
+  /\ t_refs (gettree (x_st (run_state8 w8_lower w9_xb (skipn 26 w8_history0))) 5) = [3; 0]
+  /\ t_refs (gettree (x_st (run_state8 w8_lower w9_xb (skipn 26 w8_history0))) 0) = [0; 1].
+Proof. exact w9_history_example_l. Qed.
+Print Assumptions history_resolved_example.
+
+(* ---- the read route and namespaces WITHOUT duplicate labels (Proofs/C11W9Read.v): there the readers' look-up (the
+   LAST matching member) and require_taxon (the FIRST) agree, TreeList.read keeps the namespace free of duplicates,
+   and every tree under it whose node taxa are members - so, in a closed state, every tree the read makes - is
+   resolved.  The read route therefore leaves the history corollary only in namespaces that hold several members with
+   one label: exactly the listed finding read-resolves-duplicate-label-to-last-member. ---- *)
+From DV Require Import Proofs.C11W9Read.
+
+Theorem readers_agree_without_duplicates : forall (lower : lbl -> lbl) (st : state) (n : oid) (l : lbl),
+  (forall y z, In y (members st n) -> In z (members st n) ->
+     key lower (ns_cs st n) (label st y) = key lower (ns_cs st n) (label st z) -> y = z) ->
+  last_match lower st n (ns_cs st n) l = first_match lower st n (ns_cs st n) l.
+Proof. exact last_first_uniq. Qed.
+Print Assumptions readers_agree_without_duplicates.
+
+Theorem read_keeps_no_duplicates : forall (lower : lbl -> lbl) (st : state) (l : oid) (sc : schema) (cskw : bool)
+    (nsarg : option oid) (trees : list (list lbl)),
+  let n := l_ns (getlist st l) in
+  let st' := fst (step lower st (ReadList l sc cskw nsarg trees)) in
+  (forall y, In y (members st n) -> y < length (s_lab st)) ->
+  (forall y z, In y (members st n) -> In z (members st n) ->
+     key lower (ns_cs st n) (label st y) = key lower (ns_cs st n) (label st z) -> y = z) ->
+  (forall y z, In y (members st' n) -> In z (members st' n) ->
+     key lower (ns_cs st' n) (label st' y) = key lower (ns_cs st' n) (label st' z) -> y = z).
+Proof. exact read_keeps_uniq_l. Qed.
+Print Assumptions read_keeps_no_duplicates.
+
+Theorem read_without_duplicates_resolved : forall (lower : lbl -> lbl) (st : state) (l : oid) (sc : schema) (cskw : bool)
+    (nsarg : option oid) (trees : list (list lbl)) (tr : oid),
+  Closed st -> (forall n y, In y (members st n) -> y < length (s_lab st)) ->
+  (forall y z, In y (members st (l_ns (getlist st l))) -> In z (members st (l_ns (getlist st l))) ->
+     key lower (ns_cs st (l_ns (getlist st l))) (label st y) = key lower (ns_cs st (l_ns (getlist st l))) (label st z) -> y = z) ->
+  l_ns (getlist st l) < s_nns st ->
+  let st' := fst (step lower st (ReadList l sc cskw nsarg trees)) in
+  tr < length (s_trees st') -> t_ns (gettree st' tr) = l_ns (getlist st l) -> canon lower st' tr.
+Proof. exact read_without_duplicates_resolved_l. Qed.
+Print Assumptions read_without_duplicates_resolved.
+
+Theorem read_without_duplicates_example :
+  let st := x_st w9_xb in
+  let o := ReadList 3 Newick false None [[3; 1]; [2; 4]] in
+  closedb st = true /\ taxa_wfb w9_xb = true /\ uniqb w8_lower st 3 = true /\ uniqb w8_lower st 0 = false
+  /\ l_ns (getlist st 3) = 3 /\ s_nns st = 4 /\ length (s_trees st) = 6
+  /\ snd (step w8_lower st o) = OUnit
+  /\ map (fun t => (t_ns (gettree (fst (step w8_lower st o)) t), t_refs (gettree (fst (step w8_lower st o)) t))) [6; 7]
+     = [(3, [6; 8]); (3, [7; 8])].
+Proof. exact w9_read_example_l. Qed.
+Print Assumptions read_without_duplicates_example.
+
+Theorem uniqb_sound : forall (lower : lbl -> lbl) (st : state) (n : oid), uniqb lower st n = true ->
+  forall y z, In y (members st n) -> In z (members st n) ->
+    key lower (ns_cs st n) (label st y) = key lower (ns_cs st n) (label st z) -> y = z.
+Proof. exact Proofs.C11W9Read.uniqb_sound. Qed.
+Print Assumptions uniqb_sound.
